@@ -2,8 +2,7 @@ import Cactus.Lemmas.Final
 import Cactus.Lemmas.Basic
 import Cactus.Lemmas.Contract
 import Cactus.Lemmas.GroupOrder
-import Cactus.Props.C05
-import Cactus.Props.C12
+import Cactus.Lemmas.Shared.OneStep   -- `Shared.upgradeField_dead_none`, `Shared.purgeOne_skips_self`
 /-!
 # C10 — destructors may use the API re-entrantly during a collection
 
@@ -41,12 +40,12 @@ theorem C10_script_done (s : State) (h w : List Nat) (rest : List Frame)
 theorem C10_upgrade_dying_peer (s : State) (fh fw : List Nat) (k o : Nat) (ob : Obj)
     (hw : nthMod fw k = some o) (hc : s.cell o = some ob) (hd : ob.strong = .uninit) :
     applyAct s fh fw (.upgradeField k) = s.emit (retBool false) :=
-  C05_upgradeField_dead_none s fh fw k o ob hw hc (by simp [hd, Strong.isDead])
+  Shared.upgradeField_dead_none s fh fw k o ob hw hc (by simp [hd, Strong.isDead])
 
 /-- no internal borrow conflict: the only nested table access of the library (the purge loop)
 skips the object whose table is being iterated -/
 theorem C10_no_nested_self_borrow (x : Nat) (s : State) (e : Link × Nat) (h : e.1.ptr = x) :
-    purgeOne x s e = s := C12_purge_skips_self x s e h
+    purgeOne x s e = s := Shared.purgeOne_skips_self x s e h
 
 
 /-! ## C01–C06 continue to hold while destructors run
